@@ -52,6 +52,7 @@ type LayoutCfg struct {
 	DrainPqs   bool   `json:"drain_pqs"`   // after the last rotation run the listener's tick once, directly (hook)
 	DumpRanges string `json:"dump_ranges"` // after ingest: the range micro index of this column in every block of the open segment
 	Windows    bool   `json:"windows"`     // record, after every written record, what getLastRecord() returns per column
+	KeepOrder  bool   `json:"keep_order"`  // report the ids of the hits in the order of the response as well
 }
 
 type Script struct {
@@ -72,6 +73,8 @@ type Obs struct {
 	// "GetSortedQSRs: Received N query segment requests. R raw search P pqs ..." (-1 = no such line)
 	Raw int `json:"raw"`
 	Pqs int `json:"pqs"`
+	// ids in the order of the response (only with LayoutCfg.KeepOrder)
+	Order []int `json:"order,omitempty"`
 }
 
 // logrus hook: remembers the raw/pqs segment counts per qid
@@ -159,6 +162,8 @@ type WorkerOut struct {
 	Flushes  int                         `json:"flushes"`
 	Rotates  int                         `json:"rotates"`
 	Ingested int                         `json:"ingested"`
+	// runtime.GOMAXPROCS(0) while the queries ran = the number of blocks the searcher takes per fetch
+	GoMaxProcs int `json:"gomaxprocs"`
 }
 
 func initNode(dir string, cfg LayoutCfg) error {
@@ -191,6 +196,7 @@ func initNode(dir string, cfg LayoutCfg) error {
 }
 
 var qidCtr uint64 = 100
+var keepOrder bool
 
 func fmtNum(x interface{}) string {
 	switch t := x.(type) {
@@ -296,6 +302,9 @@ func runQuery(idx, text string) Obs {
 					ids = append(ids, -1)
 				}
 			}
+			if keepOrder {
+				o.Order = append([]int{}, ids...)
+			}
 			sort.Ints(ids)
 			for i, x := range ids {
 				if i > 0 && ids[i-1] == x {
@@ -337,6 +346,7 @@ func workerMain(dir, scriptPath, outPath string) {
 	if sc.Cfg.Procs > 0 {
 		runtime.GOMAXPROCS(sc.Cfg.Procs)
 	}
+	keepOrder = sc.Cfg.KeepOrder
 	if sc.Cfg.Trace {
 		log.SetOutput(io.Discard)
 		log.SetLevel(log.InfoLevel) // the hook reads one Info line per query; nothing is printed
@@ -347,6 +357,7 @@ func workerMain(dir, scriptPath, outPath string) {
 		os.Exit(4)
 	}
 	var out WorkerOut
+	out.GoMaxProcs = runtime.GOMAXPROCS(0)
 	zero, zero2 := time.Duration(0), time.Duration(0)
 	if sc.Cfg.Windows {
 		sighooks.GlobalHooks.AfterWritingToSegment = func(rid uint64, segstore interface{}, record []byte, ts uint64, st sutils.SIGNAL_TYPE) error {
